@@ -1825,3 +1825,8 @@ mod test {
         assert_eq!(normalize_index(-6, 3), None);
     }
 }
+
+// Verification hook (add-only, compiled only by `cargo kani`): harnesses kept outside the repository.
+#[cfg(kani)]
+#[path = "/verif/kani/inmod/parser_state.rs"]
+mod verif_kani;
